@@ -188,11 +188,18 @@ func (c *ctx) ucDirected() {
 		b.Count("standard_address_checks", 1)
 	}
 	// huge requirement counts
-	for _, req := range []uint64{256, 1 << 32, ^uint64(0)} {
-		uc := types.UnlockConditions{PublicKeys: []types.UnlockKey{c.ucKey('A'), c.ucKey('B')}, SignaturesRequired: req}
-		p := types.SpendPolicy{Type: types.PolicyTypeUnlockConditions(uc)}
-		c.checkCase("uc", fmt.Sprintf("uc(AB,%d)", req), "ab", "h+0", p, e, []types.Signature{c.ucSig('a', c.h0), c.ucSig('b', c.h0)}, nil)
-		c.ucAddress("uc-huge-required", uc)
+	for _, req := range []uint64{256, 1<<31 - 1, 1 << 31, 1 << 32, 1<<63 - 1, 1 << 63, 1<<63 + 1, ^uint64(0) - 1, ^uint64(0)} {
+		for nk := 0; nk <= 2; nk++ {
+			uc := types.UnlockConditions{PublicKeys: []types.UnlockKey{c.ucKey('A'), c.ucKey('B')}[:nk], SignaturesRequired: req}
+			p := types.SpendPolicy{Type: types.PolicyTypeUnlockConditions(uc)}
+			all := []types.Signature{c.ucSig('a', c.h0), c.ucSig('b', c.h0)}
+			// with every number of supplied signatures, in particular none at all
+			for ns := 0; ns <= nk; ns++ {
+				c.checkCase("uc", fmt.Sprintf("uc(%d keys,required %d)", nk, req), fmt.Sprintf("%d-sigs", ns), "h+0", p, e, all[:ns], nil)
+				b.Count("uc_huge_required_cases", 1)
+			}
+			c.ucAddress("uc-huge-required", uc)
+		}
 	}
 	// many keys (odd Merkle shapes) for the address; duplicates count per listing
 	for n := 0; n <= 20; n++ {
